@@ -119,6 +119,62 @@ CHECKS = {
         ref="10/C15",
         note="AST-payload graphs are outside the statement's enumeration; names as front ends and generator produce them",
     ),
+    "C07": dict(
+        cat="translation_validation",
+        technique="differential execution of original vs regenerated function under CPython with unique-id call logs and enumerated decision tapes; pipeline exception recorder; mechanism flags from M-a2s",
+        text="Every generated program that the real pipeline accepts is validated against its "
+             "input: same return repr / exception type / ordered external-call log on 3 argument "
+             "tuples x all decision tapes the original consumes up to a bound; refusals are counted, "
+             "internal errors and non-compiling output are violations; stdlib functions give "
+             "crash/compile evidence.",
+        ref="10/C07",
+        note="CPython is the reference model; known findings (D8, D9, shadowed builtins) are keyed by mechanism witnessed in the trace",
+    ),
+    "C08": dict(
+        cat="translation_validation",
+        technique="block-level reference interpreter of the front-end graph vs CPython (same tapes/logs) + exactly-once statement census with independent reachability analysis",
+        text="The graph the real front end builds from each program is interpreted block by block "
+             "exactly as the statement prescribes and compared with CPython over enumerated "
+             "decision tapes; a census checks every stamped statement lands in exactly one block "
+             "and only dead code / no-ops are pruned.",
+        ref="10/C08",
+        note="interpreter and reachability analysis are the trusted base; NameError family merged",
+    ),
+    "C10": dict(
+        cat="exploration",
+        technique="exactly-once census of stamped AST nodes in the emitted FunctionDef + codegen call counter (M-s2a) + compile + binding hygiene",
+        text="Static census of every FunctionDef the real back end returns, on source-derived "
+             "graphs and on generated graphs with AST payloads that no source produces.",
+        ref="10/C10",
+        note="no execution: covers unexercised paths; reads of builtins recorded, charged dynamically in C07",
+    ),
+    "C11": dict(
+        cat="exploration",
+        technique="exception-type monitor over a completely enumerated finite space (statement classes x positions x carriers), dispatch confirmed by M-a2s",
+        text="All unsupported ast.stmt classes of the running interpreter at nine structural "
+             "positions in three carriers plus non-function inputs; the space is enumerated "
+             "completely (exhaustive: true).",
+        ref="10/C11",
+        note="future statement classes without a template make the run inconclusive",
+    ),
+    "C12": dict(
+        cat="exploration",
+        technique="offline comparison of per-case digests recorded by separate worker processes under different PYTHONHASHSEED values",
+        text="Same cases, k processes with different hash seeds; canonical insertion-order-"
+             "sensitive dumps after every stage, of both front ends and of the regenerated source "
+             "must be identical.",
+        ref="10/C12",
+        note="k=4 quick / 24 thorough; long random names maximise set-order churn",
+    ),
+    "C18": dict(
+        cat="exploration",
+        technique="name hand-out history recorder with online freshness check against all graphs sharing the generator (M-names), add_block clobber monitor",
+        text="Random request histories, graphs named inside the generator namespace, and stage "
+             "pipelines interleaved with dict/YAML reloads run under the monitor; every handed-out "
+             "name must be new for the generator and absent from every registered graph.",
+        ref="10/C18",
+        note="'present' = key of a registered graph, region name of such a graph, or control variable in use",
+    ),
 }
 
 NOT_APPLICABLE = {}
